@@ -188,7 +188,7 @@ def stress_task(task, wdir, res):
         res.count("stress_reads_outside_unindexed_inflight_windows", n_clean_reads)
         base_sig = dict(sig)
         for rd in reads:
-            sig = dict(base_sig, inflight_unindexed=rd["dirty"])
+            sig = dict(base_sig, inflight_unindexed=rd["dirty"], flushing=True)   # reads run concurrently with auto-flushes by construction
             res.evaluations += 1
             must = {s["k"]: s for s in stores if s["ok"] and s["t_ret"] is not None and s["t_ret"] < rd["t_call"]}
             may = {s["k"]: s for s in stores if s["t_call"] < rd["t_ret"] and s["ok"] is not False}
@@ -223,6 +223,13 @@ def stress_task(task, wdir, res):
         # final quiescent read: everything acked exactly once
         sig = dict(base_sig)
         node.syncflush()
+        repc = node.cmd("QUERY ev COUNT")
+        cntq = repc.rows[0][0] if repc.rows and repc.rows[0] else None
+        nack = len({s["k"] for s in stores if s["ok"]})
+        res.evaluations += 1
+        if cntq != nack and not any(s["ok"] is None for s in stores):
+            res.violation("count_wrong", dict(sig, read="final_quiescent", flushing=False, direction="high" if (cntq or 0) > nack else "low"),
+                          f"after the run (all flushes awaited): COUNT={cntq}, {nack} stores acknowledged", dict(witness, query="QUERY ev COUNT"))
         rep = node.cmd("QUERY ev RETURN [k]")
         ks = [r.get("k") for r in rep.dicts()] if rep.rows is not None else []
         acked = {s["k"] for s in stores if s["ok"]}
